@@ -52,12 +52,23 @@ def wait_outcomes(f, prims, fail_v, flag="this->signaled"):
     each value.  state components: T = the flag was seen set and no wait primitive ran since; P = the last wait primitive reported
     failure (timeout); K = the flag was cleared since T became true; plus the constant values of bool locals (so `return result;`
     is resolved per path).  returns [(return node, value True/False/None, T, P, K)]"""
-    flags = sorted(d["n"] for n in f.nodes if n["k"] == "DeclStmt" for d in n["decls"] if d.get("t") == "bool")
+    flags = sorted(d["n"] for n in f.nodes if n["k"] == "DeclStmt" for d in n["decls"] if (d.get("t") or "").replace("const ", "").strip() == "bool")
     primset = set(prims)
     pk = {x: fin.key(f, x) for x in prims}
 
     def setflag(fl, name, v):
         return tuple((v if nm == name else x) for nm, x in zip(flags, fl))
+
+    def outcome_link(expr):
+        """("P", pol) when `expr` is true exactly for one outcome of the wait primitive it contains: pol = its truth value on failure"""
+        inside = [x for x in prims if x in f.desc(expr) or x == f.strip(expr)]
+        if not inside:
+            return None
+        vf = fin.eval_expr(f, expr, {pk[x]: fail_v for x in inside})
+        vs = fin.eval_expr(f, expr, {pk[x]: 0 for x in inside})
+        if vf is not None and vs is not None and bool(vf) != bool(vs):
+            return ("P", bool(vf))
+        return None
 
     def transfer(st, e):
         if not isinstance(e, int):
@@ -73,12 +84,12 @@ def wait_outcomes(f, prims, fail_v, flag="this->signaled"):
                     K = True
                 elif lt in flags:
                     v = fin.eval_expr(f, n["c"][1], {})
-                    fl = setflag(fl, lt, None if v is None else bool(v))
+                    fl = setflag(fl, lt, (outcome_link(n["c"][1]) if v is None else bool(v)))
             elif n["k"] == "DeclStmt":
                 for d in n["decls"]:
                     if d["n"] in flags and d.get("init") is not None:
                         v = fin.eval_expr(f, d["init"], {})
-                        fl = setflag(fl, d["n"], None if v is None else bool(v))
+                        fl = setflag(fl, d["n"], (outcome_link(d["init"]) if v is None else bool(v)))
             out.add((T, P, K, fl))
         return frozenset(out)
 
@@ -93,7 +104,14 @@ def wait_outcomes(f, prims, fail_v, flag="this->signaled"):
                 res = set((True, P, False, fl) if truth else (T, P, K, fl) for (T, P, K, fl) in res)
             elif t in flags:
                 i = flags.index(t)
-                res = set(x for x in res if x[3][i] is None or x[3][i] == truth)
+                nxt = set()
+                for x in res:
+                    v = x[3][i]
+                    if isinstance(v, tuple):        # the flag names an outcome of the primitive: this edge decides it
+                        nxt.add((x[0], truth == v[1], x[2], setflag(x[3], t, truth)))
+                    elif v is None or v == truth:
+                        nxt.add(x)
+                res = nxt
             else:
                 inside = [x for x in prims if x in f.desc(a)]
                 if inside:
@@ -114,7 +132,7 @@ def wait_outcomes(f, prims, fail_v, flag="this->signaled"):
         if st is None:
             continue
         for (T, P, K, fl) in st:
-            v = fin.eval_expr(f, n["c"][0], {nm: int(x) for nm, x in zip(flags, fl) if x is not None})
+            v = fin.eval_expr(f, n["c"][0], {nm: int(x) for nm, x in zip(flags, fl) if isinstance(x, bool)})
             out.append((i, None if v is None else bool(v), T, P, K))
     return out
 
